@@ -244,6 +244,16 @@ func checkC09(c *Ctx) {
 	}
 	c09Consistency(c)
 	c09Messages(c)
+	// a handler that reaches no 输出 yields 空, whatever its last statement evaluates to
+	c.runHand("handler-value", []handCase{
+		{"ends-with-assignment", "令状态 = “好”\n如何试？\n\t输入数\n\t输出 10 / 数\n\n\t拦截异常：\n\t\t状态 = “坏”\n令果 = （试：0）\n输出【果，状态】\n", `list[null,text("坏")]`},
+		{"ends-with-call", "如何加？\n\t输入子、丑\n\t输出 子 + 丑\n如何试？\n\t输入数\n\t输出 10 / 数\n\n\t拦截异常：\n\t\t（加：3、4）\n输出【（试：0），（试：5）】\n", "list[null,num(2)]"},
+		{"ends-with-method-call", "如何试？\n\t输入数\n\t令列 = 【1，2】\n\t输出 列#数\n\n\t拦截异常：\n\t\t以【7，8】（后增：9）\n输出【（试：5），（试：1）】\n", "list[null,num(1)]"},
+		{"ends-with-expression", "如何试？\n\t抛出异常：“x”！\n\n\t拦截异常：\n\t\t1 + 2\n输出（试）\n", "null"},
+		{"output-in-untaken-branch", "如何试？\n\t输入数\n\t输出 10 / 数\n\n\t拦截异常：\n\t\t如果 数 > 5：\n\t\t\t输出 -1\n\t\t数\n输出【（试：0）】\n", "list[null]|error:*"},
+		{"program-level-handler", "令状态 = 1\n令乙 = 1 / 0\n\n拦截异常：\n\t令丙 = 2\n\t丙 + 1\n", "null"},
+		{"control-with-output", "如何试？\n\t输出 1 / 0\n\n\t拦截异常：\n\t\t1 + 2\n\t\t输出 -1\n输出（试）\n", "num(-1)"},
+	})
 	c09Endurance(c)
 	var inputs []map[string]Val
 	c.runRefCases("exc", progs, inputs, shapes, nil, func(i int, src string, ref zr.Result, resp *Resp) {
